@@ -228,7 +228,7 @@ func propC10() *lib.Prop {
 			// several runners, source completions and redeployments (shared with C11's operator mode)
 			// D51 (open): a timer before 1970 sorts after every later timer (keys carry uint64(UnixNano))
 			d51 := lib.Case{Header: "M C10 1 0 1 1048576 1", Tags: []string{"fixed", "preepoch"},
-				Ops: []string{"set 6b -5", "set 6b 4102444800000000000", "earliest", "adv 0 10000000000", "dbcount", "adv 0 4102444800000000001", "dbcount"}}
+				Ops: []string{"adv 0 -1000000000", "set 6b -5", "set 6b 4102444800000000000", "earliest", "adv 0 10000000000", "dbcount", "adv 0 4102444800000000001", "dbcount"}}
 			// tiny memtables (150 B ~ 3 timer keys with overhead): the fired timers' deletes are in memory over flushed
 			// puts when the checkpoint is taken; after the restore they must not fire again, the pending ones must
 			sst := lib.Case{Header: "M C10 1 0 1 26 1 150", Tags: []string{"fixed", "smallcache", "sst"},
@@ -268,6 +268,12 @@ func propC10() *lib.Prop {
 			preEpoch := i%6 == 5
 			if preEpoch {
 				c.Tags = append(c.Tags, "preepoch")
+				// timers before 1970 are only accepted while the composite watermark is before 1970 (old data): every
+				// runner first reports a watermark below all of them
+				for ri := 0; ri < runners; ri++ {
+					wms[ri] = -int64(grid+1) * scale
+					c.Ops = append(c.Ops, fmt.Sprintf("adv %d %d", ri, wms[ri]))
+				}
 			}
 			ts := func() int64 {
 				t := int64(r.Intn(grid)) * scale
